@@ -68,6 +68,7 @@ class Gen:
             self.cfg["faults"] = kinds or ["interrupt"]
         self.p0 = 1
         self.after_mutate = None
+        self.follow = None
         self.last_changer = None
         self.n_constructed = 0
 
@@ -443,6 +444,22 @@ class Gen:
                 self.last_changer = j
                 return {"op": "fit", "c": j, "d": d}
             self.after_mutate = None
+        if self.follow is not None:
+            # every way of fitting (fit, fit_predict, fit_transform, update) is followed,
+            # half of the time, directly by an update or an output call on that client
+            j, nxt = self.follow
+            self.follow = None
+            if j < ncl and isinstance(sim.clients[j].lin, list) and r.random() < 0.5:
+                cl = sim.clients[j]
+                if nxt == "update":
+                    like = cl.lin[0][1] if cl.lin[0][1] is not None else None
+                    if like is not None and not sim.ds_spec[like].get("bad") and sim.ds_spec[like]["container"] != "ndarray":
+                        spec = sim.ds_spec[like]
+                        m = int(r.integers(1, 9))
+                        self.last_changer = j
+                        return {"op": "update", "c": j, "like": like, "values": values_to_json(self.values(m, len(spec["columns"]), spec.get("dtype", "float64")))}
+                else:
+                    return {"op": nxt, "c": j, "d": self.pick_dataset(sim, cl, False)}
         # who moves: prefer a client sharing state with the last state changer
         i = None
         if self.last_changer is not None and self.last_changer < ncl and r.random() < 0.45:
@@ -526,6 +543,10 @@ class Gen:
                     st["fault"] = {"kind": "interrupt", "at": 1 + int(frac * L)}
         if st["op"] in ("fit", "update", "update_predict", "fit_predict", "fit_transform", "set_params", "clone", "reset"):
             self.last_changer = st.get("c")
+        if st["op"] in ("fit", "fit_predict", "fit_transform", "update", "update_predict") and st.get("c") is not None and st["c"] < len(sim.clients) and sim.clients[st["c"]].is_det:
+            self.follow = (st["c"], self.choice(["update", "update", "predict", "transform_scores", "transform"]))
+            if r.random() < 0.15:
+                st["y"] = True
         return st
 
 
